@@ -342,7 +342,11 @@ class World:
         except Exception as e:
             return ("exc", type(e).__name__ + ": " + str(e)[:200])
 
-    def _cmp(self, kind, name, old, twin, nulp=8, rel=None):
+    def _cmp(self, kind, name, old, twin, nulp=8, rel=None, scale=None):
+        # scale: sum of the absolute values of the terms a cancelling sum (log-density) is made of; the 8-ulp
+        # allowance is then taken relative to it (reduction order may differ between two tensors with different
+        # memory alignment, e.g. in torch float32), never relative to the possibly tiny result
+        self._scale = scale
         ctx = self.ctx
         sig = {"kind": kind, "observable": name}
         ctx.c.oracle_evals["twin_equal"] += 1
@@ -387,7 +391,13 @@ class World:
             ok = on.shape == tn.shape and bool(np.all(np.isclose(on, tn, rtol=rel, atol=rel, equal_nan=True)))
             why = f"{on!r} vs {tn!r}"
         else:
-            ok, idx, why = core.ulp_close(on, tn, nulp, self._eps(), atol=1e-300)
+            atol = 1e-300
+            if tn.size:
+                finite = np.abs(tn[np.isfinite(tn)])
+                atol += nulp * self._eps() * (float(finite.max()) if finite.size else 0.0)   # relative to the largest element of the array
+            if getattr(self, "_scale", None):
+                atol += nulp * self._eps() * self._scale
+            ok, idx, why = core.ulp_close(on, tn, nulp, self._eps(), atol=atol)
         if not ok:
             ctx.fail("twin_equal", dict(sig, cls="value" if on.shape == tn.shape else "shape"),
                      f"{sig['observable']}: old vs fresh twin differ: {why}; backend={self.reg}")
@@ -605,8 +615,18 @@ class World:
             if len(daux):
                 obsv += [("expected_auxdata", lambda m: m.expected_auxdata(pars)),
                          ("constraint_logpdf", lambda m: m.constraint_logpdf(T(daux), T(pars)))]
+            # magnitude of the summands of the log-densities at this point (for the cancellation-aware tolerance)
+            try:
+                from scipy.special import gammaln
+
+                lam = np.abs(np.asarray(tl.tolist(twin.expected_data(pars)), dtype=np.float64)).reshape(-1, len(data))
+                dd = np.abs(data)[None, :]
+                lp_scale = float(np.sum(dd * (1 + np.abs(np.log(np.maximum(lam, 1e-30)))) + lam + gammaln(dd + 1) + 10.0))
+            except Exception:
+                lp_scale = None
             for name, fn in obsv:
-                out.append(self._cmp(kind, name, self._observe(lambda: fn(obj)), self._observe(lambda: fn(twin))))
+                out.append(self._cmp(kind, name, self._observe(lambda: fn(obj)), self._observe(lambda: fn(twin)),
+                                     scale=lp_scale if "logpdf" in name else None))
         elif kind == "interp":
             r = random.Random(op["pt"])
             ns = len(a["hist"])
